@@ -102,6 +102,71 @@ def correspondences(tier, rng):
             return [tuple(t.metrics[g]) for g in order]
         return res(go)
     out.append(Corr("hmtx_decompile", [c for c in cases if c[1] >= 1 and c[0] >= 1], impl_hmtx_dec))
+    # --- simple-glyph point data (flags with repeats, short/word/zero coordinate forms)
+    from fontTools.ttLib.tables._g_l_y_f import Glyph, GlyphCoordinates
+    def gen_points():
+        pts = []
+        for _ in range(rng.randint(1, 5)):
+            ln = rng.choice([1, 2, 3, 4, 255, 256, 257, 258, 300]) if rng.chance(15) else rng.randint(1, 5)
+            f = rng.choice([0, 1, 1, 64, 65, 128, 129, 193])
+            k = rng.below(6)
+            def c():
+                kk = rng.below(6)
+                return 0 if kk == 0 else rng.choice([1, -1, 255, -255, rng.randint(-255, 255)]) if kk <= 2 else \
+                       rng.choice([256, -256, 32767, -32768, rng.randint(-32768, 32767)]) if kk <= 4 else rng.choice([32768, -32769, 5])
+            if k <= 1:
+                x, y = c(), c(); pts += [(f, (x, y))] * ln                       # identical flags: repeat runs
+            else:
+                pts += [(f if rng.chance(70) else rng.choice([0, 1]), (c(), c())) for _ in range(min(ln, 40))]
+        return pts
+    gcases = [gen_points() for _ in range(n // 2)]
+    def impl_glyf_compile(ps):
+        def go():
+            g = Glyph()
+            a, b, c_ = g.compileDeltasGreedy(bytearray(f for f, _ in ps), GlyphCoordinates([xy for _, xy in ps]))
+            return list(a) + list(b) + list(c_)
+        return res(go)
+    def decode_glyph(nn, data):
+        """the real decompileCoordinates on a one-contour glyph record; returns relative points and the flags"""
+        g = Glyph(); g.numberOfContours = 1
+        g.decompileCoordinates(struct.pack(">Hh", nn - 1, 0) + bytes(data))
+        absol = list(g.coordinates); rel = []; px = py = 0
+        for (x, y) in absol: rel.append((x - px, y - py)); px, py = x, y
+        return [(fl, xy) for fl, xy in zip(list(g.flags), rel)]
+    def oracle_glyf(ps):
+        r = impl_glyf_compile(ps)
+        if isinstance(r, Err): return None
+        got = decode_glyph(len(ps), r.v)
+        if got != [(f, tuple(xy)) for f, xy in ps]: return "points %r compile to %r and read back as %r" % (ps[:12], r.v[:30], got[:12])
+        return None
+    out.append(Corr("compileDeltasGreedy", gcases, impl_glyf_compile, oracle=oracle_glyf))
+    dcases = []
+    for ps in gcases[: n // 3]:
+        r = impl_glyf_compile(ps)
+        if isinstance(r, Err): continue
+        b = list(r.v); k = rng.below(5)
+        if k == 0 and b: b = b[: rng.randint(0, len(b) - 1)]
+        elif k == 1 and b: b[rng.below(min(len(b), 6))] = rng.below(256)
+        elif k == 2: b = b + [rng.below(256) for _ in range(rng.randint(1, 3))]
+        dcases.append((len(ps) if rng.chance(80) else max(1, len(ps) + rng.randint(-1, 1)), b))
+    def impl_glyf_decode(x):
+        nn, b = x
+        def go():
+            g = Glyph(); g.numberOfContours = 1
+            flags, xs, ys = g.decompileCoordinatesRaw(nn, bytes(b), 0)
+            # the sign/zero reconstruction of decompileCoordinates, relative coordinates, kept flag bits
+            got = decode_glyph(nn, b)
+            used = 0
+            # bytes consumed: flags as written + coordinate bytes
+            j = 0; pos = 0
+            while j < nn:
+                fl = b[pos]; pos += 1; rep = 1
+                if fl & 8: rep = b[pos] + 1; pos += 1
+                j += rep
+            xlen = sum(1 if fl & 2 else 0 if fl & 16 else 2 for fl in flags); ylen = sum(1 if fl & 4 else 0 if fl & 32 else 2 for fl in flags)
+            return ([(fl, xy) for fl, xy in got], list(b[pos + xlen + ylen:]))
+        return res(go)
+    out.append(Corr("decompileCoordinates", dcases, impl_glyf_decode))
     return out
 
 # ------------------------------------------------------------------ sweeps
